@@ -10,7 +10,15 @@ Definition (exact `Fraction` arithmetic on the label-keyed polynomials of `c05.R
      `check_feasible`, and `SampleSet.from_samples_cqm` (is_satisfied, is_feasible, energy);
 (ii) property predicate: every one of those reports, plus `violations`, `ExactCQMSolver.sample_cqm`, against
      the definition above, for several rows with mixed satisfaction and dyadic tolerances including 0.
+
+Both are driven **along histories on ONE model object** (like C05), not only on freshly built models: after the first
+evaluation the same `cqm` is mutated (relabel_variables with swaps / cycles of labels that stay in the model, relabel to new
+names, relabel_constraints, add / remove / fix / flip variable, change_vartype, set_objective, add / remove constraint) and
+every report path is re-checked against the definition after each step, with the sample's label order kept from the previous
+evaluation (so anything remembered per model between two evaluations — column look-ups, cached sub-samples — is exercised).
+The Lean driver follows the same history (`relv`, `fix`, … then `feas` again on the same model value).
 """
+import copy
 import itertools
 import warnings
 from fractions import Fraction as F
@@ -147,8 +155,149 @@ def cls_of(ref, label=None):
     return 'general'
 
 
+def rand_terms(r, ref, const_only=False):
+    """terms for `set_objective` / `add_constraint` on the current variables (types from `ref`)"""
+    labs = list(ref.vars)
+    ints = [v for v in labs if ref.vars[v][0] == 'INTEGER' and ref.vars[v][2] > 1000]
+    ts = []
+    if ints and not const_only and r.random() < .7:
+        ts.append((r.choice(ints), r.choice(ints), r.choice([-2, -1, -.5, .25, .5, 1, 1.5, 2])))
+    for _ in range(r.randint(1 if const_only else 0, 4)):
+        k = 0 if const_only or not labs else r.choice([0, 1, 1, 2, 2])
+        if k == 0:
+            ts.append((r.randint(-8, 8) / 2,))
+        elif k == 1:
+            ts.append((r.choice(labs), r.randint(-8, 8) / 4))
+        else:
+            u, v = r.choice(labs), r.choice(labs)
+            if 'REAL' in (ref.vars[u][0], ref.vars[v][0]):
+                continue
+            ts.append((u, v, r.randint(-8, 8) / 4))
+    return ts
+
+
+MUTS = (['relv-perm'] * 6 + ['relv-new'] * 2 + ['relc'] * 2 + ['addvar', 'rmvar', 'fix', 'flip', 'cvt', 'objt', 'cont', 'rmcon'])
+
+
+def mutate(ctx, r, cqm, ref, ncon):
+    """one successful public mutation of `cqm`, mirrored on `ref`; returns (kind, protocol line, python source) or None"""
+    for _ in range(6):
+        k = r.choice(MUTS)
+        vs = list(ref.vars); cl = list(ref.cons)
+        ref2 = ref.copy()
+        try:
+            if k == 'relv-perm':
+                if len(vs) < 2:
+                    continue
+                ks = r.sample(vs, r.choice([2, 2, 3]) if len(vs) > 2 else 2)
+                mp = {ks[i]: ks[(i + 1) % len(ks)] for i in range(len(ks))}     # a swap or a 3-cycle of labels that stay
+                line = 'relv ' + ','.join(f'{lab(a)}={lab(b)}' for a, b in mp.items())
+                code = f'cqm.relabel_variables({mp!r}, inplace=True)'; ref2.relabel_variables(mp)
+            elif k == 'relv-new':
+                new = [x for x in c05.NEWLABS + list(c05.KIND) if x not in ref.vars]
+                if not vs or not new:
+                    continue
+                ks = r.sample(vs, r.randint(1, min(2, len(vs), len(new))))
+                mp = dict(zip(ks, r.sample(new, len(ks))))
+                line = 'relv ' + ','.join(f'{lab(a)}={lab(b)}' for a, b in mp.items())
+                code = f'cqm.relabel_variables({mp!r})'; ref2.relabel_variables(mp)
+            elif k == 'relc':
+                if not cl:
+                    continue
+                if len(cl) > 1 and r.random() < .6:
+                    ks = r.sample(cl, 2); mp = {ks[0]: ks[1], ks[1]: ks[0]}
+                else:
+                    mp = {r.choice(cl): r.choice([x for x in ['k', 5, ('k', 1), 'c9'] if x not in ref.cons])}
+                line = 'relc ' + ','.join(f'{lab(a)}={lab(b)}' for a, b in mp.items())
+                code = f'cqm.relabel_constraints({mp!r})'; ref2.relabel_constraints(mp)
+            elif k == 'addvar':
+                new = [x for x in list(c05.KIND) + c05.NEWLABS if x not in ref.vars]
+                if not new:
+                    continue
+                v = r.choice(new); vt = r.choice(['BINARY', 'SPIN', 'INTEGER', 'REAL'])
+                lo, hi = c05.BOUNDS[vt]
+                if vt in ('BINARY', 'SPIN'):
+                    code = f'cqm.add_variable({vt!r}, {v!r})'; ref2.add_variable(vt, v, None, None); line = f'addvar {vt} {lab(v)} - -'
+                else:
+                    code = f'cqm.add_variable({vt!r}, {v!r}, lower_bound={lo!r}, upper_bound={hi!r})'
+                    ref2.add_variable(vt, v, lo, hi); line = f'addvar {vt} {lab(v)} {rat(lo)} {rat(hi)}'
+            elif k == 'rmvar':
+                if not vs:
+                    continue
+                v = r.choice(vs); line = f'rmvar {lab(v)}'; code = f'cqm.remove_variable({v!r})'; ref2.remove_variable(v)
+            elif k == 'fix':
+                if not vs:
+                    continue
+                v = r.choice(vs); vt = ref.vars[v][0]
+                a = r.choice([0, 1]) if vt == 'BINARY' else r.choice([-1, 1]) if vt == 'SPIN' else r.choice([-1, 0, 1, 2]) if vt == 'INTEGER' else r.choice([-1, 0.5, 2])
+                line = f'fix {lab(v)} {rat(a)}'; code = f'cqm.fix_variable({v!r}, {a!r})'; ref2.fix_variable(v, a)
+            elif k == 'flip':
+                c = [v for v in vs if ref.vars[v][0] in ('BINARY', 'SPIN')]
+                if not c:
+                    continue
+                v = r.choice(c); line = f'flip {lab(v)}'; code = f'cqm.flip_variable({v!r})'; ref2.flip(v)
+            elif k == 'cvt':
+                c = [v for v in vs if ref.vars[v][0] in ('BINARY', 'SPIN')]
+                if not c:
+                    continue
+                v = r.choice(c); vt = r.choice(['SPIN', 'INTEGER'] if ref.vars[v][0] == 'BINARY' else ['BINARY', 'INTEGER'])
+                line = f'cvt {vt} {lab(v)}'; code = f'cqm.change_vartype({vt!r}, {v!r})'; ref2.change_vartype(vt, v)
+            elif k == 'objt':
+                ts = rand_terms(r, ref, r.random() < .2)
+                line = 'objt ' + c05.terms_arg(ts); code = f'cqm.set_objective({ts!r})'; ref2.set_objective_terms(ts)
+            elif k == 'cont':
+                ts = rand_terms(r, ref, r.random() < .2)
+                ncon[0] += 1
+                sense = r.choice(c05.SENSES); rhs = r.randint(-6, 6) / 2; label = r.choice([f'd{ncon[0]}', 100 + ncon[0], ('d', ncon[0])])
+                weight = r.choice([.5, 2.0, 1.25]) if r.random() < .4 else None
+                kw = f'label={label!r}' + (f', weight={weight!r}, penalty=\'linear\'' if weight is not None else '')
+                code = f'cqm.add_constraint({ts!r}, {sense!r}, {rhs!r}, {kw})'
+                ref2.add_constraint_terms(ts, sense, rhs, label, weight, 'linear')
+                line = f'cont {lab(label)} {sense} {rat(rhs)} {"-" if weight is None else rat(weight)} 0 {c05.terms_arg(ts)}'
+            else:
+                if not cl:
+                    continue
+                l = r.choice(cl); cas = r.random() < .4
+                line = f'rmcon {lab(l)} {int(cas)}'; code = f'cqm.remove_constraint({l!r}, cascade={cas})'; ref2.remove_constraint(l, cas)
+        except c05.Bad:
+            continue
+        try:
+            exec(code, dict(cqm=cqm))
+        except Exception:  # noqa  (what raises and what it leaves behind is C05's business)
+            ctx.tick('history: mutation raised, history abandoned')
+            return None
+        ref.__dict__.update(ref2.__dict__)
+        if list(cqm.variables) != list(ref.vars) or list(cqm.constraints) != list(ref.cons):
+            ctx.tick('history: label order differs from the specification (C05), history abandoned')
+            return None
+        return k, line, code
+    return None
+
+
 def check_one(ctx, r, out):
+    """one model, evaluated when fresh and — on the same object — after each step of a short history"""
     cqm, ref, lines, src = gen_cqm(ctx, r)
+    st = dict(pending=list(lines), all=list(lines), src=src, order=None, last=None)
+    if not evaluate(ctx, r, out, cqm, ref, st):
+        return
+    if r.random() < .45:
+        return
+    ncon = [0]
+    for _ in range(r.choice([1, 1, 2, 2, 3, 4])):
+        m = mutate(ctx, r, cqm, ref, ncon)
+        if m is None:
+            return
+        k, line, code = m
+        st['pending'].append(line); st['all'].append(line); st['src'].append(code); st['last'] = k
+        ctx.tick('history step: ' + k)
+        if not evaluate(ctx, r, out, cqm, ref, st):
+            return
+
+
+def evaluate(ctx, r, out, cqm, ref, st):
+    """every report path of `cqm` in its present state against the definition; False = stop this model"""
+    src = st['src']
+    lines = st['all']
     labs = list(ref.vars)
     nrows = r.choice([1, 2, 3, 5])
     rows = [[rand_value(r, ref.vars[v]) for v in labs] for _ in range(nrows)]
@@ -157,8 +306,33 @@ def check_one(ctx, r, out):
     clabels = list(ref.cons)
     pre = c05.PRELUDE + 'from dimod import SampleSet, ExactCQMSolver\n' + '\n'.join(src) + '\n'
     key = (tuple(lines), tuple(map(tuple, rows)), atol, rtol)
+    # the order in which the sample names its variables: kept from the previous evaluation of this object where possible
+    # (labels that are still there keep their place), otherwise the model's order
+    if st['order'] is not None and r.random() < .8:
+        sorder = [v for v in st['order'] if v in ref.vars] + [v for v in labs if v not in st['order']]
+    else:
+        sorder = list(labs)
+    st['order'] = sorder
+    spos = [labs.index(v) for v in sorder]
+    after = f' after {st["last"]}' if st['last'] else ''
+    ran = []     # the evaluations performed, as source (part of the history of this object)
+
+    def depends_on_history():
+        """does a deep copy of the object (no past) report something else than the object itself?"""
+        try:
+            cp = copy.deepcopy(cqm)
+            for row in rows:
+                sample = {v: row[i] for v, i in zip(sorder, spos)}
+                rep = lambda m: ([(d.label, d.lhs_energy) for d in m.iter_constraint_data(sample)], m.objective.energy(sample) if labs else 0)  # noqa: E731
+                if rep(cqm) != rep(cp):
+                    return True
+            return False
+        except Exception:  # noqa
+            return True
 
     def fail(site, icls, what, check):
+        if after and depends_on_history():
+            icls, what = f'evaluated again{after}', what + f' [{icls}; a deep copy of the model reports something else than the model itself]'
         ctx.fail('property', site, icls, what, repro=pre + check, detail=dict(build=src, rows=rows, atol=str(atol), rtol=str(rtol)))
 
     # ---------------- per-sample path
@@ -166,7 +340,7 @@ def check_one(ctx, r, out):
     ok = True
     for row in rows:
         x = {v: F(a) for v, a in zip(labs, row)}
-        sample = dict(zip(labs, row))
+        sample = {v: row[i] for v, i in zip(sorder, spos)}
         per, feas, en = definition(ref, x, atol, rtol)
         try:
             data = list(cqm.iter_constraint_data(sample))
@@ -176,13 +350,13 @@ def check_one(ctx, r, out):
             cf = cqm.check_feasible(sample, rtol=fr_, atol=fa)
         except Exception as e:  # noqa
             fail('CQM.iter_constraint_data', 'raises', f'{type(e).__name__}: {e}', f'list(cqm.iter_constraint_data({sample!r}))\n')
-            return
+            return False
         vl = lambda l: ','.join(f'{lab(a)}={rat(b)}' for a, b in l)   # noqa: E731
         per_row.append(','.join(f'{rat(d.lhs_energy)}:{rat(d.rhs_energy)}:{d.sense.value}:{rat(d.activity)}:{rat(d.violation)}' for d in data)
                        + f'|{vl(v0)}|{vl(v1)}|{vl(v2)}|{int(bool(cf))}')
         # predicate: against the definition
         if [d.label for d in data] != clabels:
-            fail('CQM.iter_constraint_data', 'labels', 'labels out of order', f'assert [d.label for d in cqm.iter_constraint_data({sample!r})] == {clabels!r}\n'); return
+            fail('CQM.iter_constraint_data', 'labels', 'labels out of order', f'assert [d.label for d in cqm.iter_constraint_data({sample!r})] == {clabels!r}\n'); return False
         for d in data:
             lhs, act, viol, sat = per[d.label]
             got = (F(float(d.lhs_energy)), F(float(d.rhs_energy)), d.sense.value, F(float(d.activity)), F(float(d.violation)))
@@ -215,19 +389,20 @@ def check_one(ctx, r, out):
             for dt in INT_DTYPES:
                 if not all(np.iinfo(dt).min <= a <= np.iinfo(dt).max for a in row):
                     continue
-                arr1 = np.array([row], dtype=dt)
+                srow = [row[i] for i in spos]
+                arr1 = np.array([srow], dtype=dt)
                 ctx.tick('row dtype ' + np.dtype(dt).name)
                 try:
-                    gd = {a: F(float(b)) for a, b in cqm.violations((arr1, labs)).items()}
-                    cfd = bool(cqm.check_feasible((arr1, labs), rtol=fr_, atol=fa))
+                    gd = {a: F(float(b)) for a, b in cqm.violations((arr1, sorder)).items()}
+                    cfd = bool(cqm.check_feasible((arr1, sorder), rtol=fr_, atol=fa))
                 except Exception as e:  # noqa
-                    fail('CQM.violations', 'raises', f'{type(e).__name__}: {e} for a {np.dtype(dt).name} row', f'cqm.violations((np.array([{row!r}], dtype=np.{np.dtype(dt).name}), {labs!r}))\n')
+                    fail('CQM.violations', 'raises', f'{type(e).__name__}: {e} for a {np.dtype(dt).name} row', f'cqm.violations((np.array([{srow!r}], dtype=np.{np.dtype(dt).name}), {sorder!r}))\n')
                     ok = False
                     break
                 if gd != want0 or cfd != feas:
-                    fail('CQM.violations', f'{np.dtype(dt).name} sample', f'violations of the {np.dtype(dt).name} row {row!r} = { {a: float(b) for a, b in gd.items()} !r} (feasible {cfd}), '
+                    fail('CQM.violations', f'{np.dtype(dt).name} sample', f'violations of the {np.dtype(dt).name} row {srow!r} (columns {sorder!r}) = { {a: float(b) for a, b in gd.items()} !r} (feasible {cfd}), '
                          f'definition { {a: float(b) for a, b in want0.items()} !r} (feasible {feas})',
-                         f'assert cqm.violations((np.array([{row!r}], dtype=np.{np.dtype(dt).name}), {labs!r})) == { {a: float(b) for a, b in want0.items()} !r}\n')
+                         f'assert cqm.violations((np.array([{srow!r}], dtype=np.{np.dtype(dt).name}), {sorder!r})) == { {a: float(b) for a, b in want0.items()} !r}\n')
                     ok = False
                     break
             if not ok:
@@ -242,7 +417,7 @@ def check_one(ctx, r, out):
             ok = False
             break
     if not ok:
-        return
+        return False
     # ---------------- vectorised path
     if any(isinstance(a, float) for row in rows for a in row):
         dt = float
@@ -252,9 +427,9 @@ def check_one(ctx, r, out):
         dt = r.choice(fits)   # also the smallest one NumPy / as_samples would pick
         ctx.tick('matrix dtype ' + np.dtype(dt).name)
     arr = np.array(rows, dtype=dt).reshape(nrows, len(labs))
-    perm = list(range(len(labs)))
-    if r.random() < .5:
-        r.shuffle(perm)
+    perm = list(spos)       # the columns in the order the per-sample path named them …
+    if r.random() < .35:
+        r.shuffle(perm)     # … or in another order
     sl = (arr[:, perm], [labs[i] for i in perm])
     slsrc = f'(np.array({arr[:, perm].tolist()!r}, dtype=np.{np.dtype(dt).name}), {[labs[i] for i in perm]!r})' if labs else f'(np.empty(({nrows}, 0)), [])'
     try:
@@ -267,15 +442,19 @@ def check_one(ctx, r, out):
         back = [[F(float(rec.sample[i][list(ss.variables).index(v)])) for v in labs] for i in range(nrows)]
     except Exception as e:  # noqa
         fail('SampleSet.from_samples_cqm', 'raises', f'{type(e).__name__}: {e}', f'SampleSet.from_samples_cqm({slsrc}, cqm, rtol={fr_!r}, atol={fa!r})\n')
-        return
+        return False
+    if labs:
+        ran.append(f'cqm.violations({ {v: rows[0][i] for v, i in zip(sorder, spos)} !r}); cqm.check_feasible({ {v: rows[0][i] for v, i in zip(sorder, spos)} !r})')
+    ran.append(f'SampleSet.from_samples_cqm({slsrc}, cqm)')
     vec = ','.join(''.join(str(int(b)) for b in row) for row in sat_m) + '|' + ''.join(str(int(b)) for b in fe_v) + '|' + ','.join(rat(e) for e in en_v)
     rows_arg = ';'.join(','.join(rat(a) for a in row) or '-' for row in rows)
-    out.append(dict(lines=lines + [f'feas {rat(atol)} {rat(rtol)} {rows_arg}'],
-                    expect='P ' + ' ; '.join(per_row) + f' V {vec} W {vec}', src=src, rows=rows))
+    out.append(dict(lines=st['pending'] + [f'feas {rat(atol)} {rat(rtol)} {rows_arg}'],
+                    expect='P ' + ' ; '.join(per_row) + f' V {vec} W {vec}', src=list(src), rows=rows))
+    st['pending'] = []
     if back != [[F(a) for a in row] for row in rows] or ss.info.get('constraint_labels') != clabels:
         fail('SampleSet.from_samples_cqm', 'rows/labels', 'samples or constraint labels not as given',
              f'ss = SampleSet.from_samples_cqm({slsrc}, cqm)\nassert ss.info["constraint_labels"] == {clabels!r}\n')
-        return
+        return False
     nontrivial = False
     for i, row in enumerate(rows):
         x = {v: F(a) for v, a in zip(labs, row)}
@@ -286,16 +465,16 @@ def check_one(ctx, r, out):
             j = next(j for j in range(len(clabels)) if sat_m[i][j] != wsat[j])
             fail('SampleSet.from_samples_cqm', cls_of(ref, clabels[j]), f'is_satisfied row {i} = {sat_m[i]}, definition {wsat}',
                  f'ss = SampleSet.from_samples_cqm({slsrc}, cqm, rtol={fr_!r}, atol={fa!r})\nassert list(ss.record.is_satisfied[{i}]) == {wsat!r}\n')
-            return
+            return False
         if fe_v[i] != feas:
             fail('SampleSet.from_samples_cqm', 'is_feasible', f'is_feasible row {i} = {fe_v[i]}, definition {feas}',
                  f'ss = SampleSet.from_samples_cqm({slsrc}, cqm, rtol={fr_!r}, atol={fa!r})\nassert bool(ss.record.is_feasible[{i}]) == {feas}\n')
-            return
+            return False
         if en_v[i] != en:
             icls = 'constant-only objective' if (not ref.obj.order and F(float(cqm.objective.energy(dict(zip(labs, row))))) != value(ref.obj, x)) else 'energy'
             fail('SampleSet.from_samples_cqm', icls, f'energy row {i} = {float(en_v[i])}, definition {float(en)}',
                  f'ss = SampleSet.from_samples_cqm({slsrc}, cqm, rtol={fr_!r}, atol={fa!r})\nassert ss.record.energy[{i}] == {float(en)!r}, ss.record.energy\n')
-            return
+            return False
     ctx.case(key, nontrivial=nontrivial, sample=dict(build=src, rows=rows, atol=str(atol), rtol=str(rtol)))
     # ---------------- exact solver on small models
     dom = []
@@ -307,8 +486,9 @@ def check_one(ctx, r, out):
             es = dimod.ExactCQMSolver().sample_cqm(cqm, rtol=fr_, atol=fa)
         except Exception as e:  # noqa
             fail('ExactCQMSolver.sample_cqm', 'raises', f'{type(e).__name__}: {e}', f'ExactCQMSolver().sample_cqm(cqm, rtol={fr_!r}, atol={fa!r})\n')
-            return
+            return False
         ctx.tick('exact_solver')
+        ran.append(f'ExactCQMSolver().sample_cqm(cqm)')
         seen = set()
         esv = list(es.variables)
         for i in range(len(es.record)):
@@ -321,19 +501,23 @@ def check_one(ctx, r, out):
                 fail('ExactCQMSolver.sample_cqm', 'row', f'row {dict((k, float(a)) for k, a in x.items())}: energy {es.record.energy[i]}, feasible {es.record.is_feasible[i]}, satisfied {gsat}; '
                      f'definition {float(en)}, {feas}, {[per[l][3] for l in clabels]}',
                      f'es = ExactCQMSolver().sample_cqm(cqm, rtol={fr_!r}, atol={fa!r})\nprint(es)\nassert False\n')
-                return
+                return False
         if seen != set(itertools.product(*[[F(a) for a in d] for d in dom])):
             fail('ExactCQMSolver.sample_cqm', 'enumeration', 'the rows are not exactly the assignments of the variables\' domains',
                  f'es = ExactCQMSolver().sample_cqm(cqm)\nassert len(es) == {int(np.prod([len(d) for d in dom]))}\n')
-            return
+            return False
+    st['src'] = src + ran      # the evaluations are part of what happened to this object
+    return True
 
 
 def run(ctx):
     r = ctx.rng
-    n = ctx.scale(2500, 60000)
+    n = ctx.scale(1400, 30000)
     ctx.rule = ('random CQMs (0-4 variables of all four types, 0-4 constraints of mixed senses, hard and soft side by side, linear and '
-                'quadratic penalties, constant-only objectives/constraints) x 1-5 in-domain rows x dyadic atol/rtol incl. 0; a case = one '
-                '(CQM, rows, tolerances); non-trivial = at least one constraint violated on at least one row')
+                'quadratic penalties, constant-only objectives/constraints, wide INTEGER variables) x 1-5 in-domain rows x dyadic atol/rtol incl. 0, '
+                'evaluated when freshly built and again on the SAME object after each of 1-4 mutations (label swaps / cycles, relabel to new '
+                'names, relabel_constraints, add/remove/fix/flip variable, change_vartype, set_objective, add/remove constraint); a case = one '
+                '(history, rows, tolerances); non-trivial = at least one constraint violated on at least one row')
     out = []
     for _ in range(n):
         check_one(ctx, r, out)
